@@ -12,6 +12,7 @@ import (
 	"os"
 	"sync"
 	"syscall"
+	"time"
 
 	"golang.org/x/sys/unix"
 
@@ -21,6 +22,8 @@ import (
 )
 
 // an event flood (a spinning loop) must not fill the disk: the log is cut after this many events per round
+var recStart = time.Now()
+
 var maxEvents = 400000 * vsup.EnvInt("VERIF_ROUNDS", 1)
 
 type recorder struct {
@@ -50,6 +53,9 @@ func newRecorder(path string, rep *vsup.Report) (*recorder, error) {
 // emit appends one event; returns its sequence number.
 func (r *recorder) emit(ev string, kv ...any) int {
 	m := map[string]any{"ev": ev}
+	if ev == "Reset" || ev == "Grace" || ev == "PeerDial" || ev == "PeerDone" || ev == "PeersTimeout" || ev == "Quiesce" || ev == "StopReq" || ev == "RunRet" {
+		m["ms"] = time.Since(recStart).Milliseconds() // (information only: no verdict reads it)
+	}
 	for i := 0; i+1 < len(kv); i += 2 {
 		m[kv[i].(string)] = kv[i+1]
 	}
